@@ -227,6 +227,26 @@ func goAddrApis(a []string) string {
 	if g != w.GetAddress() {
 		return fmt.Sprintf("FAIL apis-differ new=%v gwa=%v", w.GetAddress(), g)
 	}
+	// the caller's option list in another order and with overridden repetitions in front: last setting wins, order of
+	// different options is irrelevant (applyOptions)
+	opts := walletOpts(a[2], a[3], a[4])
+	var perm []wallet.Option
+	perm = append(perm, wallet.WithWorkchain(wc+77), wallet.WithSubWalletID(12345), wallet.WithNetworkGlobalID(-3))
+	for i := len(opts) - 1; i >= 0; i-- {
+		perm = append(perm, opts[i])
+	}
+	if a[2] == "_" {
+		perm = append(perm, wallet.WithWorkchain(0))
+	}
+	if a[3] != "_" && a[4] != "_" { // only when both are given do the leading dummies get overridden
+		w3, err := wallet.New(key, ver, nil, perm...)
+		if err != nil {
+			return "FAIL new-permuted " + err.Error()
+		}
+		if w3.GetAddress() != w.GetAddress() {
+			return fmt.Sprintf("FAIL option-order-matters straight=%v permuted=%v", w.GetAddress(), w3.GetAddress())
+		}
+	}
 	si, err := wallet.GenerateStateInit(pub, ver, optI32(a[4]), wc, optU32(a[3]))
 	if err != nil {
 		return "FAIL gsi-err"
